@@ -125,6 +125,40 @@ def class_ops(ctx):
     return out
 
 
+@rule("CLASS-MEMBER", ["C09", "C10", "C11", "C12", "C13", "C01", "C20"], floor=4)
+def class_member(ctx):
+    """A compiled class *is* its inversion list: CharacterClass::contains(c) answers inversion_list.contains(c) on every
+    path, and new/all/empty/as_code_point_inversion_list store and hand out that list unchanged.  Every class the
+    compiler builds (escapes, categories, blocks, ranges, complements, the dot, the case closure) is consulted through
+    contains, so a second answer for some characters changes all of them at once."""
+    out = []
+    CC = "character_class::CharacterClass::"
+    want = {
+        "contains": ("CodePointInversionList::contains(a1.0, a2)",),
+        "new": ("CharacterClass::CharacterClass{0: a1}",),
+        "all": ("CharacterClass::CharacterClass{0: CodePointInversionList::all()}",),
+        "empty": ("CharacterClass::CharacterClass{0: CodePointInversionListBuilder::build(CodePointInversionListBuilder::new())}",),
+        "as_code_point_inversion_list": ("a1.0", "ref(a1.0)", "&a1.0"),
+    }
+    for m, accepted in sorted(want.items()):
+        b = ctx.body(CC + m)
+        if b is None:
+            if m in ("contains", "new"):
+                out.append(missing(CC + m))
+            continue
+        w = ctx.walk(b)
+        rets = sorted({strip_ver(render(p.ret)) for p in w.paths if p.end == "return"})
+        key = "%s|is-the-inversion-list" % m
+        if w.truncated or not rets:
+            out.append(bad(key, "CharacterClass::%s could not be enumerated" % m, b.loc()))
+        elif all(r in accepted for r in rets) and all(p.end == "return" for p in w.paths):
+            out.append(ok(key))
+        else:
+            odd = [r for r in rets if r not in accepted]
+            out.append(bad(key, "CharacterClass::%s answers %s on some path; a class is its inversion list (%s)" % (m, (odd or ["<a path that does not return>"])[0][:160], accepted[0]), b.loc()))
+    return out
+
+
 def _assigned_values(ctx, b, local):
     se = ctx.senv(b)
     vals = []
@@ -476,6 +510,39 @@ def _param_is_flag(ctx, b, argi):
             continue
         return False
     return True
+
+
+@rule("CASE-NOTION-AGREE", ["C08", "C01", "C20"], floor=1)
+def case_notion_agree(ctx):
+    """Case-blind matching is implemented twice: atoms, back-references and the prefix scan compare two characters
+    with equal_case_blind; classes and first sets (the sets the optimiser uses to decide that a repeat cannot
+    overlap what follows, and the first-character filter) are closed under case when they are built.  Both must
+    rest on the same notion of "case variant": where one relates two characters and the other does not, `x` and
+    `[x]` differ and the no-backtracking rewrite is applied to repeats that do overlap what follows."""
+    out = []
+    cmp_prims, closure_prims = set(), set()
+    eb = ctx.body("re_matcher::ReMatcher::equal_case_blind")
+    if eb is None:
+        return [missing("re_matcher::ReMatcher::equal_case_blind")]
+    prim = lambda r: ("CaseMapper" in r or "CaseMapCloser" in r) and r.split("::")[-1] != "new"
+    for bb, t, r in call_sites(eb, prim):
+        cmp_prims.add(re.sub(r"<.*?>", "", r).split("::")[-1])
+    loc = None
+    for b in ctx.f.bodies:
+        if b.from_expansion or b.path == eb.path:
+            continue
+        for bb, t, r in call_sites(b, prim):
+            ctx.body(b.path)
+            closure_prims.add(re.sub(r"<.*?>", "", r).split("::")[-1])
+            loc = loc or b.loc(bb)
+    if not cmp_prims or not closure_prims:
+        return [missing("case primitives (comparator %s, closure %s)" % (sorted(cmp_prims), sorted(closure_prims)))]
+    key = "comparator=%s|classes-and-first-sets=%s" % (",".join(sorted(cmp_prims)), ",".join(sorted(closure_prims)))
+    if cmp_prims == closure_prims:
+        out.append(ok(key))
+    else:
+        out.append(bad(key, "characters are compared through %s but classes and first sets are closed through %s: the two relate different pairs of characters (U+0130 lower-cases to 'i' but is not in the closure of 'i'; U+017F is in the closure of 's' but does not lower-case to it)" % (sorted(cmp_prims), sorted(closure_prims)), loc))
+    return out
 
 
 @rule("LEAF-DOT", ["C12"], floor=2)
